@@ -146,8 +146,9 @@ ModelFails(r, net, par, opts, x, u, d, elems) ==
      \cup {<<"model.nodecons", n>> : n \in {n \in NodesOf(net) : RIsFinite(NodeInflow(net, par, xc, u, d, n)) /\ ~NodeConserves(net, par, xc, u, d, n)}}
      \cup (IF defined /\ ~AllFinite(y) THEN {<<"model.finite", "">>} ELSE {})
      \cup (IF defined THEN {<<"model.bounds", q>> : q \in {q \in Queued(net) : ~OriginBounds(net, par, xc, u, d, q)}} ELSE {})
-     \cup (IF \A c \in {0, 1, 2} : NothingMissing(net, elems, c) /\ FeedBack(net, elems, c) THEN {} ELSE {<<"model.layout", "">>})
-     \cup (IF SameUpToConcat(net, elems) THEN {} ELSE {<<"model.concat", "">>})
+     \* (the layout theorems are about the network's own element order: nothing to say when the library did not report one)
+     \cup (IF ~r.obs.elements_ok \/ \A c \in {0, 1, 2} : NothingMissing(net, elems, c) /\ FeedBack(net, elems, c) THEN {} ELSE {<<"model.layout", "">>})
+     \cup (IF ~r.obs.elements_ok \/ SameUpToConcat(net, elems) THEN {} ELSE {<<"model.concat", "">>})
      \cup (IF StepOpt(net, par, NoOpts, x, u, d) = Step(net, par, x, u, d) THEN {} ELSE {<<"model.noopts", "">>})
 
 \* ---- compiled functions (C03, C04, C05, C16, C17) -------------------------------------------------
